@@ -9,6 +9,8 @@ pairs, exact multiples, reciprocal steps, dt == target; lengths odd/even, divisi
 even in {True, False}; array-, object- and consumer-level calls; Fourier matrix even x parity(npts) x parity(factor) x
 divisible decimation.
 """
+import copy
+
 import numpy as np
 
 from vf import attach, core, gen
@@ -125,7 +127,8 @@ def _wit(fn, snap, dt, target, even, **kw):
 
 
 def _finite_real(x):
-    return x.ndim == 1 and x.dtype.kind in 'fiu' and bool(np.all(np.isfinite(x)))
+    """finite 1-d numeric record (complex records - what fas2signal produces - included)"""
+    return x.ndim == 1 and x.dtype.kind in 'fiuc' and bool(np.all(np.isfinite(x)))
 
 
 def _domain(ctx, prefix, x, dt, target):
@@ -140,10 +143,32 @@ def _domain(ctx, prefix, x, dt, target):
 
 def _float_copy(snap):
     try:
-        x = np.asarray(snap['copy'], dtype=float)
+        x = np.asarray(snap['copy'])
+        x = np.asarray(x, dtype=complex if x.dtype.kind == 'c' else float)
     except Exception:
         return None
     return x if x.ndim == 1 else None
+
+
+def _obj_state(asig):
+    """Every attribute of a signal object as a comparable value (arrays by dtype/shape/bytes) - read from vars(), so
+    that no property is evaluated and no cache is filled by looking."""
+    st = {}
+    for k, v in vars(asig).items():
+        if isinstance(v, np.ndarray):
+            st[k] = ('nd', str(v.dtype), v.shape, v.tobytes())
+        elif isinstance(v, (int, float, complex, str, bool, type(None), np.generic)):
+            st[k] = ('s', type(v).__name__, repr(v))
+        else:
+            try:
+                st[k] = ('o', type(v).__name__, repr(copy.deepcopy(v)))
+            except Exception:
+                st[k] = ('o', type(v).__name__, None)
+    return st
+
+
+def _state_diff(s0, s1):
+    return sorted(k for k in set(s0) | set(s1) if s0.get(k) != s1.get(k))
 
 
 def check_interp(ctx, prefix, fn, snap, dt, target, even, y, new_dt):
@@ -160,7 +185,8 @@ def check_interp(ctx, prefix, fn, snap, dt, target, even, y, new_dt):
     n = len(x)
     ctx.ok(prefix + 'returns')
     try:
-        y = np.asarray(y, dtype=float)
+        y = np.asarray(y)
+        y = np.asarray(y, dtype=complex if (y.dtype.kind == 'c' or x.dtype.kind == 'c') else float)
         new_dt = float(new_dt)
         shape_ok = y.ndim == 1
     except Exception:
@@ -185,6 +211,8 @@ def check_interp(ctx, prefix, fn, snap, dt, target, even, y, new_dt):
               head + ': covered duration changes by %.4g (coarser) steps' % dc)
     if kind == 'refine':
         okk, j, cnt = O.retained_refining(x, y, k)
+        if okk and k >= 2 and cnt < n:
+            okk, j = False, cnt          # refining: EVERY original sample reappears (only factor 1 + even may drop the last)
         ctx.check(okk, prefix + 'retained-samples', lambda: w(factor=k, first_bad_sample=j),
                   head + ': original sample %s does not reappear at index %s (factor %d)' % (j, None if j is None else j * k, k))
         if (dt / (k - 1) if k > 1 else 2.0 * dt) <= target:
@@ -230,7 +258,8 @@ def check_fourier(ctx, snap, dt, target, even, result):
     N = len(x)
     ctx.ok(prefix + 'returns')
     try:
-        y = np.asarray(result.values, dtype=float)
+        y = np.asarray(result.values)
+        y = np.asarray(y, dtype=complex if (y.dtype.kind == 'c' or x.dtype.kind == 'c') else float)
         new_dt = float(result.dt)
         shape_ok = y.ndim == 1
     except Exception:
@@ -261,11 +290,18 @@ def check_fourier(ctx, snap, dt, target, even, result):
     rtol = O.BAND_RTOL32 if f32 else O.BAND_RTOL
     a, b, nyq = O.harmonics(x)
     Ks = O.band_index(a, b, nyq, scale, O.BAND_ZERO32 if f32 else O.BAND_ZERO)
-    below_old = 2 * Ks < N
+    # content exactly at the OLD Nyquist frequency (alternating component of an even-length record) is the sampling of a
+    # cosine at that frequency; it is below the NEW Nyquist frequency whenever the step is refined, and is then judged
+    at_old_nyquist = (2 * Ks == N)
+    if at_old_nyquist:
+        a, b = O.with_nyquist(a, b, nyq)
+    below_old = 2 * Ks <= N
     below_new = 2.0 * Ks * new_dt < N * dt * (1 - 1e-9)
     if not (below_old and below_new):
-        ctx.observe(prefix + 'input not band-limited below the Nyquist frequencies (not judged)')
+        ctx.observe(prefix + 'input not band-limited below the new Nyquist frequency (not judged)')
         return True
+    if at_old_nyquist:
+        ctx.observe(prefix + 'judged with energy exactly at the old Nyquist frequency (cosine reading)')
     skip = 1e-15 * scale
     tau = np.arange(len(y)) * new_dt / (N * dt)
     exp = O.trig_eval(a, b, Ks, tau, skip)
